@@ -33,7 +33,8 @@ var rng *rand.Rand
 // ---------------------------------------------------------------- vocabulary
 
 var vals = []interface{}{float64(1), float64(2), "a", true, nil, map[string]interface{}{"k": float64(1)},
-	[]interface{}{float64(1), float64(2)}, 1.5, "n1", "n2"}
+	[]interface{}{float64(1), float64(2)}, 1.5, "n1", "n2",
+	[]interface{}{map[string]interface{}{"k": float64(1)}}, map[string]interface{}{"k": []interface{}{float64(1)}}}
 var bkeys = []string{"k", "j", "t", "?x", "?t", "p!", "q!", "xs"}
 var nodeNames = []string{"n0", "n1", "n2", "error", "ghost"}
 
@@ -54,6 +55,12 @@ var patterns = []interface{}{
 	map[string]interface{}{"k": map[string]interface{}{"k": "?x"}},
 	"?any",
 	float64(1),
+	map[string]interface{}{"xs": []interface{}{float64(1)}},
+	map[string]interface{}{"xs": []interface{}{float64(2), float64(1)}},
+	map[string]interface{}{"xs": []interface{}{map[string]interface{}{"k": float64(1)}}},
+	map[string]interface{}{"k": map[string]interface{}{"k": float64(1)}},
+	map[string]interface{}{"k": 1.5},
+	map[string]interface{}{"k": nil},
 }
 var badPatterns = []interface{}{
 	map[string]interface{}{"xs": []interface{}{"?a", "?b"}},
@@ -563,6 +570,131 @@ func genWalk(id int, kind string, b bias) O {
 	return walkCase(id, kind, in, true)
 }
 
+// ---------------------------------------------------------------- persist (C09)
+
+// persistCase runs one history twice with the messages delivered one at a time: once
+// keeping the state in memory, once writing it out as JSON and reading it back at the
+// boundaries in saveAt.
+func persistCase(id int, a *mach.ASpec, bs match.Bindings, ms []interface{}, saveAt []int) O {
+	spec, err := mach.Compile(a)
+	if err != nil {
+		return O{"id": id, "kind": "compile-error", "errtext": err.Error()}
+	}
+	runOnce := func(save map[int]bool) (T, string) {
+		st := &core.State{NodeName: "n0", Bs: copyBs(bs)}
+		steps := T{}
+		for i, m := range ms {
+			if save[i] {
+				js, err := json.Marshal(st)
+				if err != nil {
+					return steps, "marshal: " + err.Error()
+				}
+				st2 := &core.State{}
+				if err := json.Unmarshal(js, st2); err != nil {
+					return steps, "unmarshal: " + err.Error()
+				}
+				st = st2
+			}
+			o, w := doWalk(spec, a, st, []interface{}{enc.DeepCopy(m)}, &core.Control{Limit: 12})
+			if o["outcome"] != "returned" || w == nil {
+				return steps, "walk: " + fmt.Sprint(o["outcome"], o["errtext"])
+			}
+			if to := w.To(); to != nil {
+				st = to
+			}
+			steps = append(steps, O{"state": mach.EncState(st), "emitted": o["doEmitted"], "stopped": o["stopped"]})
+		}
+		return steps, ""
+	}
+	save := map[int]bool{}
+	for _, i := range saveAt {
+		save[i] = true
+	}
+	runA, errA := runOnce(map[int]bool{})
+	runB, errB := runOnce(save)
+	if saveAt == nil {
+		saveAt = []int{}
+	}
+	return O{"id": id, "kind": "persist", "spec": mach.EncSpec(a), "st": mach.EncState(&core.State{NodeName: "n0", Bs: bs}),
+		"msgs": mach.EncMsgs(ms), "saveAt": saveAt, "runA": runA, "runB": runB, "errA": errA, "errB": errB,
+		"raw": enc.Canon(O{"spec": a, "bs": bs, "msgs": ms, "saveAt": saveAt})}
+}
+
+// subPattern returns a pattern contained in the value (the value itself, or a part of it).
+func subPattern(v interface{}) interface{} {
+	switch vv := v.(type) {
+	case []interface{}:
+		if len(vv) > 1 && p(0.6) {
+			return []interface{}{enc.DeepCopy(vv[rng.Intn(len(vv))])}
+		}
+	case map[string]interface{}:
+		if len(vv) > 1 && p(0.5) {
+			for k, x := range vv {
+				return map[string]interface{}{k: enc.DeepCopy(x)}
+			}
+		}
+	}
+	return enc.DeepCopy(v)
+}
+
+func genPersist(id int) O {
+	b := bias{fail: 0.25, perm: 0.05, emit: 0.1, bad: 0, loop: 0, native: 0, nilbs: 0, guard: 0.15}
+	a := genSpec(b, 3, false)
+	// histories need machines that consume: make n0 (and often n1) wait for messages
+	for _, name := range []string{"n0", "n1"} {
+		if n := a.Nodes[name]; n != nil && (name == "n0" || p(0.5)) {
+			n.Act, n.NoBr, n.BType = nil, false, "message"
+			if len(n.Branches) == 0 {
+				n.Branches = []mach.ABranch{{HasPat: true, Pat: pick(patterns), Target: pickS([]string{"n1", "n2"})}}
+			}
+			n.Branches = append(n.Branches, mach.ABranch{Target: pickS([]string{"n1", "n2", "n0"})})
+		}
+	}
+	var ms []interface{}
+	for i, n := 0, 1+rng.Intn(4); i < n; i++ {
+		ms = append(ms, pick(msgs))
+	}
+	if p(0.4) {
+		// a value produced by an action in one walk and inspected by a pattern in a later one
+		key := pickS([]string{"k", "xs", "?x", "j"})
+		val := pick([]interface{}{[]interface{}{float64(1), float64(2)}, float64(3), 1.5, nil, map[string]interface{}{"k": []interface{}{float64(1)}},
+			[]interface{}{map[string]interface{}{"k": float64(1)}}, map[string]interface{}{"k": float64(1), "j": nil}, []interface{}{float64(1), "a", nil}})
+		sub := subPattern(val)
+		a = &mach.ASpec{Nodes: map[string]*mach.ANode{
+			"n0": {BType: "message", Branches: []mach.ABranch{{Target: "n1"}}},
+			"n1": {Act: []mach.Op{{Name: "set", K: key, V: val}, {Name: "emit", V: val}}, BType: "bindings", Branches: []mach.ABranch{{Target: "n2"}}},
+			"n2": {BType: "message", Branches: []mach.ABranch{{Target: "n3"}}},
+			"n3": {BType: "bindings", Branches: []mach.ABranch{{HasPat: true, Pat: map[string]interface{}{key: sub}, Target: "n4"}, {Target: "n0"}}},
+			"n4": {Act: []mach.Op{{Name: "emitb", K: key}}, BType: "bindings", Branches: []mach.ABranch{{Target: "n0"}}},
+		}}
+		if p(0.5) {
+			// the later pattern is a message pattern that re-uses the bound variable
+			a.Nodes["n2"].Branches = []mach.ABranch{{HasPat: true, Pat: map[string]interface{}{"v": "?x"}, Target: "n4"}, {Target: "n0"}}
+			a.Nodes["n1"].Act[0].K = "?x"
+			a.Nodes["n4"].Act[0].K = "?x"
+			key = "?x"
+			ms = []interface{}{pick(msgs), map[string]interface{}{"v": enc.DeepCopy(val)}, pick(msgs)}
+		}
+		if p(0.3) {
+			a.Nodes["n1"].Act = append(a.Nodes["n1"].Act, mach.Op{Name: "throw"})
+			a.AEN = "n2"
+		}
+		for len(ms) < 3 {
+			ms = append(ms, pick(msgs))
+		}
+	}
+	var saveAt []int
+	for i := range ms {
+		if p(0.5) {
+			saveAt = append(saveAt, i)
+		}
+	}
+	if len(saveAt) == 0 {
+		saveAt = []int{len(ms) - 1}
+	}
+	return persistCase(id, a, genBs(b), ms, saveAt)
+}
+
 func max(a, b int) int {
 	if a > b {
 		return a
@@ -600,6 +732,8 @@ func main() {
 			switch mode {
 			case "walk":
 				out.write(genWalk(id, mode, biases[mode]))
+			case "persist":
+				out.write(genPersist(id))
 			case "totalwalk":
 				out.write(genWalk(id, mode, biases["total"]))
 			default:
@@ -638,7 +772,13 @@ func main() {
 		if raw.Bs != nil {
 			bs = match.Bindings(raw.Bs)
 		}
-		if raw.Msgs != nil || r.Case.Kind == "walk" || r.Case.Kind == "totalwalk" {
+		if r.Case.Kind == "persist" {
+			var pr struct {
+				SaveAt []int
+			}
+			check(json.Unmarshal([]byte(r.Case.Raw), &pr))
+			out.write(persistCase(1, raw.Spec, bs, raw.Msgs, pr.SaveAt))
+		} else if raw.Msgs != nil || r.Case.Kind == "walk" || r.Case.Kind == "totalwalk" {
 			out.write(walkCase(1, r.Case.Kind, walkIn{a: raw.Spec, node: raw.Node, bs: bs, msgs: raw.Msgs, limit: raw.Limit, bps: raw.Bps, nilCtl: raw.Nilctl, orig: copyBs(bs)}, true))
 		} else {
 			var props core.StepProps
